@@ -570,6 +570,13 @@ _dispatch_event_merge_fd(dispatch_muxnote_t dmn, uint32_t events)
 	dispatch_unote_linkage_t dul, dul_next;
 	uintptr_t data;
 
+	// EPOLLERR is an unmaskable event (e.g. the read end of a pipe was closed):
+	// the next read/write on the descriptor fails at once, so the descriptor
+	// counts as readable and writable for whoever is waiting, as with poll(2)
+	if (events & EPOLLERR) {
+		events |= _dispatch_muxnote_armed_events(dmn) & (EPOLLIN | EPOLLOUT);
+	}
+
 	dmn->dmn_disarmed_events |= (events & (EPOLLIN | EPOLLOUT));
 
 	if (events & EPOLLIN) {
